@@ -4,7 +4,7 @@
    called, and again whenever an ACKNACK has been accepted; `npend s` counts the parked callers;
    `delivered s`: the reliable matched reader (if it still exists) has been given every change the
    writer holds and that is relevant for it. *)
-From DustDDS Require Import Base.Machine Proto.RelModel Proto.RelProofs Proto.RelSound Proto.RelSoundG Proto.RelLive Proto.RelAck Proto.RelWitness.
+From DustDDS Require Import Base.Machine Proto.RelModel Proto.RelProofs Proto.RelSound Proto.RelSoundG Proto.RelLive Proto.RelAck Proto.RelAckH Proto.RelWitness.
 Open Scope Z_scope.
 
 (* SOUNDNESS, unbounded: every configuration (KEEP_ALL or KEEP_LAST, any number of instances, any
@@ -36,22 +36,23 @@ Theorem C03_wfa_completes_after_deletion :
   forall cf sched, let s := run cf init sched in s_rp s = None -> npend s = 0%nat.
 Proof. exact wfa_completes_after_deletion. Qed.
 
-(* COMPLETION while the reader stays matched, the proved part (stage 1): KEEP_ALL writer, unfragmented samples, schedules without removal
-   from the history cache and without deletion of the reader (all loss / duplication / reordering / delay
-   patterns, late joiners), at most 256 samples, at least one sample relevant for the reader: after k + 1
-   healing rounds that drain the network and one more healing round that drains it, for a matched RELIABLE
-   pair the acknowledgement test holds and no caller of wait_for_acknowledgments is parked any more
-   (bounded time: k + 2 heartbeat periods of 250 ms). *)
+(* COMPLETION while the reader stays matched, the proved part: ANY history QoS (KEEP_ALL, KEEP_LAST(d) with any
+   number of instances: histories with holes), unfragmented samples, schedules without explicit removal from the
+   history cache and without deletion of the reader (all loss / duplication / reordering / delay patterns, late
+   joiners), at most 256 samples, at least one sample relevant for the reader: after k + 1 healing rounds that
+   drain the network and one more healing round that drains it, for a matched RELIABLE pair the
+   acknowledgement test holds and no caller of wait_for_acknowledgments is parked any more (bounded time:
+   k + 2 heartbeat periods of 250 ms).  `_partial`: fragmented samples are not covered by the theorem. *)
 Theorem C03_wfa_completes_partial :
   forall cf sched k,
-    0 < fsz cf -> depth cf = 0 -> forallb (live_act cf) sched = true ->
+    0 < fsz cf -> forallb (live_act cf) sched = true ->
     let s1 := run cf init (sched ++ heal (S k)) in
     let s2 := run cf s1 heal_round in
     s_last s2 <= 256 -> s_net s1 = [] -> s_net s2 = [] ->
     (forall p, s_rp s1 = Some p -> rp_fr p < s_last s1) ->
     forall p r w, s_rp s2 = Some p -> rp_rel p = true -> s_rd s2 = Some r -> rd_wp r = Some w ->
       ackd s2 = true /\ npend s2 = 0%nat.
-Proof. exact wfa_completes_unfragmented. Qed.
+Proof. exact wfa_completes_holes. Qed.
 
 (* the schedules that exposed C03-stale-waiter, on the repaired code (replayed on the real stack by the corpus) *)
 Theorem C03_stale_waiter_repaired_reader :
